@@ -58,6 +58,29 @@ object must keep its fingerprint; the assigned object must read the value back, 
 obtained by the same derivation from an original BUILT with that value, a Likelihood view must equal the view made now, and
 assigning the old value back must restore it.
 
+Gaussian matrix worlds ``gmat:<parameterisation>:<storage>:<size>:<variant>``.  The matrix parameter of a Gaussian is an ARRAY
+OBJECT OF THE USER: given as cov / prec / sqrtcov / sqrtprec; dense symmetric or (for the two square roots, where it is legal) dense
+non-symmetric non-triangular; in an owning C-ordered array or as the Fortran-ordered view R.T; of dimension 3 or just above the
+library's sparse switch (config.MIN_DIM_SPARSE + 1).  Variants: mean a vector of the user (known), mean = lambda m: m (cond: the
+original is conditional, its copies are sampled), JointDistribution(y | x ~ N(A x, c I), x ~ this Gaussian) (joint: the consumers
+run on it).  The user's arrays (matrix, mean vector) are tracked objects of the world: fingerprint = shape, dtype, memory layout,
+sha1 of the bytes, taken BEFORE any library object is read and re-taken after every step like every other fingerprint.  The
+fingerprints of the Gaussians in these worlds also read sqrtprec / sqrtprecTimesMean, and every live distribution with one free
+parameter is sampled (N = 1, rng) after every step, ``reads`` draws N = 3.
+
+Finite-difference worlds (cells with ``alphabet = fd``).  The FD switch of a density is a documented mutator of ITS object; the
+public state (FD_enabled, FD_epsilon) of every live object - and of the likelihood / prior a posterior carries - is part of every
+fingerprint.  In an FD world the alphabet is {cond(S), condB, call0, to_likelihood, model(dist), reads} plus the HISTORY-DEPENDENT
+switches: fd_on = enable_FD() where the switch is off, fd_eps = enable_FD(epsilon = another spacing) and fd_off = disable_FD()
+where it is on - on the original, on the tracked factors of a joint original, on every derived object, and on the likelihood /
+prior part of a Posterior / MultipleLikelihoodPosterior, at any position of the history and NOT reverted inside it (the switch
+stays in force for the whole sub-tree; it is put back through the public interface when the search leaves the sub-tree).  The
+switched object and its views (the Likelihood made by to_likelihood of it, the distribution a Likelihood view forwards to, the
+joint holding a factor) are re-baselined and must report the state asked for; every other live object - copies made before, the
+original, siblings - must keep its complete fingerprint; objects derived later from an original are compared with the same
+derivation on a fresh world that received the same switches.  (All other cells keep the older ``enable_fd`` operation: a coarse
+spacing set on a derived object and reverted at once.)
+
 The depth-first search keeps live objects (legitimate exactly as long as nothing was altered - which is what is
 re-checked after every step); every detected alteration is confirmed by replaying its history on a FRESH world
 before it is reported, and the live world is rebuilt from scratch before the search continues.
@@ -77,7 +100,12 @@ RULE = ("cells = original object (every joint and every factor of graphs G1..G10
         "at construction)} + RegularizedUnboundedUniform + JointGaussianSqrtPrec; 8 joint worlds wrapj = JointDistribution(y | x ~ "
         "N(A x, c I), x ~ wrapper prior); 30 linear Bayesian worlds = "
         "{operator given as matrix | as forward/adjoint functions} x {default geometries | MappedGeometry domain | MappedGeometry "
-        "range | StepExpansion domain | KLExpansion domain} x {original = joint | data distribution | model}) x value catalogue x "
+        "range | StepExpansion domain | KLExpansion domain} x {original = joint | data distribution | model}; 72 Gaussian matrix worlds "
+        "gmat = {cov | prec | sqrtcov | sqrtprec given as the USER's array} x {dense symmetric | dense non-symmetric non-triangular "
+        "(square roots only; a non-symmetric cov / prec is refused by the library and not enumerated)} x {C-ordered owning array | "
+        "Fortran-ordered view R.T} x {dimension 3 | MIN_DIM_SPARSE + 1} x {mean a vector of the user | mean = lambda m: m | joint with "
+        "a LinearModel data distribution}, the user's arrays being tracked objects (fingerprint = shape, dtype, layout, sha1 of the "
+        "bytes, baseline taken before any library object is read)) x value catalogue x "
         "depth; inside a cell all sequences of {cond(S), call0, to_likelihood, model(dist), gibbs_new, gibbs_old, mh_new, mh_old, reads, "
         "refusals, consumers, assign(parameter)} up to the depth are executed on the original and on every pool member derived so far "
         "(assign also on the tracked factors of a joint original); assign = every public mutable variable of a distribution that "
@@ -94,7 +122,14 @@ RULE = ("cells = original object (every joint and every factor of graphs G1..G10
         "fresh world (same refusal type / same derived fingerprint); all read-only operations "
         "(names, conditioning variables, attributes, logd x2, gradient, seeded draw) run on every live object after every "
         "step; after every step the fingerprints of the original, the tracked factors/helpers and all "
-        "pool members are re-taken and compared; states = (original, multiset of pool-member descriptors), "
+        "pool members are re-taken and compared; finite-difference worlds (alphabet = fd) = chosen originals with the alphabet "
+        "{cond(S), condB, call0, to_likelihood, model(dist), reads} + history-dependent FD switches {fd_on = enable_FD() where off | "
+        "fd_eps = enable_FD(another spacing) where on | fd_off = disable_FD() where on} on the original, the tracked factors of a joint "
+        "original, every derived object and the likelihood / prior a posterior carries, at any position and un-reverted for the "
+        "sub-tree below: the switched object and its views are re-baselined and must report the state asked for, everything else "
+        "must keep its fingerprint (FD_enabled / FD_epsilon of the object and of its likelihood / prior are fingerprint entries in "
+        "ALL cells), later derivations from an original must equal those of a fresh world given the same switches; "
+        "states = (original, multiset of pool-member descriptors, assignments and FD switches in force), "
         "transitions = operations executed, traces = maximal histories; a cell is non-trivial when at least one "
         "derived object was created and fingerprinted; naming cells = (world N1..N3) x focus original x first operation: every "
         "history of {cond(S), call0, to_likelihood, join} below it is replayed on fresh objects for each (name given by name= | "
@@ -111,6 +146,8 @@ BOUND = {
              "and JointGaussianSqrtPrec; wrapj joint worlds for Lognormal, RegularizedGaussian, RegularizedGMRF at depth 2; assign is in "
              "the alphabet of the wrapper-family specials, the wrapj worlds and the factors G1.x, G1.d, and closes a history (the old "
              "value is assigned back before the sibling histories continue); "
+             "the 72 Gaussian matrix worlds at depth 2 with assign closing a history; finite-difference worlds: factors G1.y and G1.x, "
+             "the linear joint world lin:mat:id:joint (tracked factors switched too) and lognormal-cond at depth 3; "
              "1 value catalogue (seed%3); conditioning alphabet = all non-empty subsets of the target's parameters "
              "(<=3 parameters) or singletons + full set (>=4); horizon run: 200 alternating re-conditionings of G1; "
              "naming: N1 (focus y, x) and N2 (focus z, s) to depth 3, N3 (focus y, d) to depth 2, 1 catalogue; routes: inferred names x "
@@ -124,6 +161,10 @@ BOUND = {
                 "compared with a fresh world that received the same assignments; the built-with-the-value reference is taken for the "
                 "first assignment of a history) and closes a history in all other cells; all 20 wrapper-family specials and the 8 wrapj worlds at depth 3 in 3 catalogues (the 6 older "
                 "wrapper specials at depth 4 in catalogue 0); the 30 linear Bayesian worlds at depth 3 in 3 catalogues; "
+                "Gaussian matrix worlds: dimension 3 at depth 3 in 3 catalogues, dimension MIN_DIM_SPARSE + 1 at depth 2 in catalogue 0; "
+                "finite-difference worlds (catalogue 0): every joint (depth 3 for <= 3 variables, else 2) and every factor of G1..G10 "
+                "(depth 3), the 10 older specials, the 30 linear worlds and gmat:sqrtprec:fullF:small:* at depth 3, G1.y, G1.x and "
+                "lin:mat:id:joint also at depth 4; "
                 "3 value catalogues at depth 3 for every factor and special; joints at depth 3 in catalogue 0 (G3, G9 in all "
                 "catalogues) and depth 2 otherwise; in addition depth 4 for factors with <=2 "
                 "parameters and for the specials in catalogue 0; horizon run: 2000 alternating "
@@ -137,6 +178,14 @@ ASSUMPTIONS = [
     "everything else exactly; exception TYPES are part of the fingerprint, messages are not",
     "operations are executed on live objects; soundness of re-using a world across sibling histories rests on the "
     "fingerprints re-taken after every step; every report is first reproduced on a fresh world",
+    "finite-difference worlds: two spacings besides the default (1e-3, and 1e-2 where 1e-3 is in force); the switch of an "
+    "EvaluatedDensity (a constant whose gradient always refuses and whose conditioning returns the object itself) is neither "
+    "operated nor fingerprinted; refused / consumer operations, assignment, samplers are not in the alphabet of these worlds; an FD "
+    "switch is put back by enable_FD(old spacing) / disable_FD() when the search leaves its sub-tree (not clean -> the live world "
+    "is rebuilt)",
+    "Gaussian matrix worlds: one SPD matrix S per (dimension, catalogue) (eigenvalues apart, so that the eigen-factorisation above "
+    "the sparse switch is well conditioned) and one non-symmetric square root S H (H a Householder reflection); Fortran storage = "
+    "a non-owning transposed view of a C-contiguous array, float64; sparse and LinearOperator inputs are not in this facet",
     "enable_FD on a derived object and attribute assignment are documented mutators of THEIR object: they are in the alphabet, the "
     "object itself and the views that hold it (Likelihood of to_likelihood, JointDistribution of a factor) are re-baselined, everything "
     "else must not notice; one assigned value per parameter (2 x value, zero vector + 1/2), only parameters holding numbers (a "
@@ -242,8 +291,6 @@ def gm_specials(tier):
                 continue
             for sz in GM_SIZES:
                 for var in GM_VARIANTS:
-                    if q and var == "joint" and (sz == "large" or not sto.endswith("F")):
-                        continue     # quick: the joint variant (consumers) for the Fortran-ordered small matrices only
                     out.append(("gmat:%s:%s:%s:%s" % (par, sto, sz, var), 2 if (q or sz == "large") else 3))
     return out
 
